@@ -64,11 +64,14 @@ def gen_cases(rng, tier):
         if any(e["closing"] != "open" for e in ents):
             cls = "table-closing" + ("" if alive else "-dead")
         case = {"kind": "table", "cls": cls if n else "trivial", "alive": alive, "ents": ents}
+        if rng.random() < 0.15:
+            case["selfpid"] = True
+            case["cls"] = case["cls"] + "-selfpid" if n else "table-empty-selfpid"
         if n and rng.random() < 0.25:
             # psutil.PROCFS_PATH re-assigned after the Process object was created: the other mount shows the
             # same PID with the same descriptors but other offsets/flags (and all of them still open)
             case["moved"] = {"pos": rng.choice([0, 999, 2 ** 40]), "flags": rng.choice([0o100002, 0o2001, 0o100000, 0o1])}
-            case["cls"] = cls + "-moved"
+            case["cls"] = case["cls"] + "-moved"
         cases.append(case)
     # raw / malformed fdinfo
     for _ in range(n_tab // 3):
@@ -109,6 +112,9 @@ def gen_cases(rng, tier):
         if items and rng.random() < 0.2:
             case["moved"] = True
             case["cls"] = cls + "-moved"
+        if items and rng.random() < 0.1:
+            case["selfpid"] = True
+            case["cls"] = case["cls"] + "-selfpid"
         cases.append(case)
     for _ in range(n_io // 3):
         content = rng.choice([b"", b"\n", b"rchar: 1\nwchar 2\n", b"rchar: 1: 2\n", b"rchar:  5\n", b"rchar: 5 \n  wchar: 6\n",
@@ -426,7 +432,9 @@ def impl_run(case, coq, env):
     root = os.path.join(env["work"], "proc")
     fp = fakeproc.FakeProc(root)
     fakeproc.attach(psutil, root)
-    pid = 4242
+    # "selfpid": the PID shown by the (foreign) procfs happens to equal the observing interpreter's own PID --
+    # another PID namespace's process, not the caller: nothing about the answers may change
+    pid = os.getpid() if case.get("selfpid") else 4242
     fp.add(pid)
     p = psutil.Process(pid)
     fp2 = None
